@@ -2,8 +2,6 @@ package padding
 
 import (
 	"errors"
-
-	"github.com/emmansun/gmsm/internal/byteorder"
 )
 
 // The padded data comprises (in this order):
@@ -22,55 +20,68 @@ func (pad iso9797M3Padding) BlockSize() int {
 }
 
 func (pad iso9797M3Padding) Pad(src []byte) []byte {
+	blockSize := pad.BlockSize()
 	srcLen := len(src)
-	overhead := pad.BlockSize() - srcLen%pad.BlockSize()
-	if overhead == pad.BlockSize() && srcLen > 0 {
+	overhead := blockSize - srcLen%blockSize
+	if overhead == blockSize && srcLen > 0 {
 		overhead = 0
 	}
 
-	var head, tail []byte
-	total := srcLen + overhead + pad.BlockSize()
-
+	total := srcLen + overhead + blockSize
 	if total <= 0 {
 		panic("padding: total length overflow")
 	}
-
-	if cap(src) >= total {
-		head = src[:total]
-	} else {
-		head = make([]byte, total)
+	bitLen := uint64(srcLen) * 8
+	if blockSize < 8 && bitLen>>(8*uint(blockSize)) != 0 {
+		panic("padding: message length does not fit into one block")
 	}
 
-	tail = head[srcLen+pad.BlockSize():]
-	clear(head[:pad.BlockSize()])
-	copy(head[pad.BlockSize():], src)
-	if overhead > 0 {
-		clear(tail)
+	// The length block is prepended, so spare capacity of src can not be
+	// used without moving (and so modifying) the caller's data.
+	head := make([]byte, total)
+	copy(head[blockSize:], src)
+	// length in bits, big-endian, right-aligned in the first block
+	for i := blockSize - 1; i >= 0 && bitLen != 0; i-- {
+		head[i] = byte(bitLen)
+		bitLen >>= 8
 	}
-	byteorder.BEPutUint64(head[8:], uint64(srcLen*8))
 	return head
 }
 
 // Unpad decrypted plaintext, non-constant-time
 func (pad iso9797M3Padding) Unpad(src []byte) ([]byte, error) {
+	blockSize := pad.BlockSize()
 	srcLen := len(src)
-	if srcLen < 2*pad.BlockSize() || srcLen%pad.BlockSize() != 0 {
+	if srcLen < 2*blockSize || srcLen%blockSize != 0 {
 		return nil, errors.New("padding: invalid src length")
 	}
-	for _, b := range src[:8] {
-		if b != 0 {
-			return nil, errors.New("padding: invalid padding header")
+	var bitLen uint64
+	for i, b := range src[:blockSize] {
+		if i < blockSize-8 {
+			if b != 0 {
+				return nil, errors.New("padding: invalid padding header")
+			}
+			continue
 		}
+		bitLen = bitLen<<8 | uint64(b)
 	}
-	dstLen := int(byteorder.BEUint64(src[8:pad.BlockSize()])/8)
-	if dstLen < 0 || dstLen > srcLen-pad.BlockSize() {
+	if bitLen%8 != 0 || bitLen/8 > uint64(srcLen-blockSize) {
 		return nil, errors.New("padding: invalid padding header")
 	}
-	padded := src[pad.BlockSize()+dstLen:]
-	for _, b := range padded {
+	dstLen := int(bitLen / 8)
+	// The data is followed by as few zero bytes as fill its last block
+	// (a whole block of zeros only for an empty message).
+	paddedLen := (dstLen + blockSize - 1) / blockSize * blockSize
+	if dstLen == 0 {
+		paddedLen = blockSize
+	}
+	if srcLen-blockSize != paddedLen {
+		return nil, errors.New("padding: invalid src length")
+	}
+	for _, b := range src[blockSize+dstLen:] {
 		if b != 0 {
 			return nil, errors.New("padding: invalid padding bytes")
 		}
 	}
-	return src[pad.BlockSize() : pad.BlockSize()+dstLen], nil
+	return src[blockSize : blockSize+dstLen], nil
 }
